@@ -185,10 +185,30 @@ struct mutex {
         return ok;
     }
 };
+// try_lock_for(rel) is try_lock_until(steady_clock::now() + rel) [thread.timedmutex.requirements]: a relative
+// timeout so large that this addition overflows is undefined behaviour inside the standard library (real
+// implementations then fail at once or report success without the lock).  Logged as K_FAULT <mutex> 10.
+namespace detail {
+    template<class R, class P>
+    inline bool rel_timeout_overflows(const ::std::chrono::duration<R, P>& d)
+    {
+        using sc = ::std::chrono::steady_clock;
+        const long double dn = ::std::chrono::duration<long double, typename sc::duration::period>(d).count();
+        const long double lim = (long double)::std::numeric_limits<typename sc::duration::rep>::max();
+        if (dn >= lim) return true;
+        long long sum = 0;
+        return __builtin_add_overflow((long long)sc::now().time_since_epoch().count(), (long long)dn, &sum);
+    }
+    inline void check_rel_timeout(const void* m, bool overflows)
+    {
+        if (overflows && vs::active()) vs::S().emit(vs::K_FAULT, m, 10);
+    }
+}  // namespace detail
 struct timed_mutex: mutex {
     template<class R, class P>
-    bool try_lock_for(const ::std::chrono::duration<R, P>&)
+    bool try_lock_for(const ::std::chrono::duration<R, P>& d)
     {
+        detail::check_rel_timeout(this, detail::rel_timeout_overflows(d));
         return try_lock_timed();
     }
     template<class C, class D>
@@ -267,8 +287,9 @@ struct shared_mutex {
 };
 struct shared_timed_mutex: shared_mutex {
     template<class R, class P>
-    bool try_lock_for(const ::std::chrono::duration<R, P>&)
+    bool try_lock_for(const ::std::chrono::duration<R, P>& d)
     {
+        detail::check_rel_timeout(this, detail::rel_timeout_overflows(d));
         return try_lock_timed();
     }
     template<class C, class D>
@@ -277,14 +298,77 @@ struct shared_timed_mutex: shared_mutex {
         return try_lock_timed();
     }
     template<class R, class P>
-    bool try_lock_shared_for(const ::std::chrono::duration<R, P>&)
+    bool try_lock_shared_for(const ::std::chrono::duration<R, P>& d)
     {
+        detail::check_rel_timeout(this, detail::rel_timeout_overflows(d));
         return try_lock_shared_timed();
     }
     template<class C, class D>
     bool try_lock_shared_until(const ::std::chrono::time_point<C, D>&)
     {
         return try_lock_shared_timed();
+    }
+};
+
+// ---- recursive mutexes (additive: same event kinds as mutex / timed_mutex, plus a depth counter) ----------
+// owner: -1 free, otherwise the holder; depth: how many times the holder has locked it.  Every lock / unlock
+// logs K_LOCK / K_UNLOCK (K_TRYLOCK, K_TRYLOCK_FOR with the outcome), also the nested ones; the value of
+// K_LOCK / K_UNLOCK is the depth before the operation (0 for the outermost lock) resp. after it (0 = released).
+struct recursive_mutex {
+    int owner = -1;
+    int depth = 0;
+    recursive_mutex() = default;
+    recursive_mutex(const recursive_mutex&) = delete;
+    bool mine_or_free() const { return owner == -1 || owner == vs::Sched::self(); }
+    void lock()
+    {
+        if (vs::active()) vs::S().visible(vs::Pending{vs::K_LOCK, this, [this](int) { return mine_or_free(); }});
+        owner = vs::Sched::self();
+        ++depth;
+        if (vs::active()) vs::S().emit(vs::K_LOCK, this, depth - 1);
+    }
+    void unlock()
+    {
+        if (vs::active()) vs::S().visible(vs::K_UNLOCK, this);
+        if (depth > 0) --depth;
+        if (depth == 0) owner = -1;
+        if (vs::active()) vs::S().emit(vs::K_UNLOCK, this, depth);
+    }
+    bool try_lock()
+    {
+        if (vs::active()) vs::S().visible(vs::K_TRYLOCK, this);
+        bool ok = mine_or_free();
+        if (ok) {
+            owner = vs::Sched::self();
+            ++depth;
+        }
+        if (vs::active()) vs::S().emit(vs::K_TRYLOCK, this, ok);
+        return ok;
+    }
+    bool try_lock_timed()
+    {
+        if (vs::active())
+            vs::S().visible(vs::Pending{vs::K_TRYLOCK_FOR, this, [this](int c) { return mine_or_free() || c == vs::C_TIMEOUT; }});
+        bool ok = mine_or_free();
+        if (ok) {
+            owner = vs::Sched::self();
+            ++depth;
+        }
+        if (vs::active()) vs::S().emit(vs::K_TRYLOCK_FOR, this, ok);
+        return ok;
+    }
+};
+struct recursive_timed_mutex: recursive_mutex {
+    template<class R, class P>
+    bool try_lock_for(const ::std::chrono::duration<R, P>& d)
+    {
+        detail::check_rel_timeout(this, detail::rel_timeout_overflows(d));
+        return try_lock_timed();
+    }
+    template<class C, class D>
+    bool try_lock_until(const ::std::chrono::time_point<C, D>&)
+    {
+        return try_lock_timed();
     }
 };
 
